@@ -1,6 +1,7 @@
 package main
 
 import (
+	"encoding/hex"
 	"fmt"
 	"math/rand"
 
@@ -127,6 +128,9 @@ func checkC11(c *Ctx) (int, error) {
 			if err != nil {
 				return 0, err
 			}
+			// the sync points are positions in these very bytes: every worker gets them as they are
+			// (fastgo's encoders choose matches differently per acceleration level)
+			st = RStream{Hex: hex.EncodeToString(b)}
 			o := oracleFor(kind, b, nil, true)
 			points := []int{len(b)}
 			for _, s := range o.Syncs {
